@@ -84,9 +84,10 @@ func (r *Run) add(status, key string, p token.Pos, msg string) {
 	}
 	r.obligs = append(r.obligs, Oblig{Rule: r.curRule, Key: key, Pos: r.pos(p), Status: status, Msg: msg})
 }
-func (r *Run) ok(key string, p token.Pos, msg string)     { r.add("discharged", key, p, msg) }
+func (r *Run) ok(key string, p token.Pos, msg string) { r.add("discharged", key, p, msg) }
 func (r *Run) bad(key string, p token.Pos, msg string) {
 	if why, ok := assumedTable[r.curRule+"|"+key]; ok {
+		// an entry covers every occurrence of the construct (the #N ordinals are added afterwards)
 		r.add("assumed", key, p, "not armed: "+why+" ("+msg+")")
 		return
 	}
@@ -97,7 +98,7 @@ func (r *Run) bad(key string, p token.Pos, msg string) {
 // non-local reason. They are reported in evidence as "assumed" (not armed), one reason each.
 var assumedTable = map[string]string{}
 
-func assumeSite(rule, key, why string) { assumedTable[rule+"|"+key] = why }
+func assumeSite(rule, key, why string)                    { assumedTable[rule+"|"+key] = why }
 func (r *Run) assume(key string, p token.Pos, msg string) { r.add("assumed", key, p, msg) }
 func (r *Run) info(key string, p token.Pos, msg string)   { r.add("info", key, p, msg) }
 func (r *Run) stat(name string, n int)                    { r.stats[name] += n }
